@@ -53,6 +53,22 @@ CHECKS = {
               'error sampler), identified by its exact residual.  Reduced-model samplers are covered under C08; covariate sampler under C07.'),
         technique='contract-based deductive verification: symbolic execution with ghost RNG state + law-algebra lemmas + Sigma-normal-form/z3',
     ),
+    'C12': dict(
+        category='proof',
+        text=('Deductive proof with the numbers of measured individuals, simulated individuals, observables and time points all symbolic '
+              '(Gaussian mixture: number of kernels 2 (quick) / 2,3 (thorough), simulated individuals per kernel symbolic): the real '
+              'compute_log_likelihood / compute_sensitivities of the Gaussian, log-normal, Gaussian-KDE, log-normal-KDE and Gaussian-mixture '
+              'filters, together with the real logsumexp/softmax helpers whose stabilising shift is an unspecified function, equal the '
+              'documented density with the documented empirical estimators as a 0/1-weighted sum over measurements (numpy.ma semantics for '
+              'missing values), and its mechanically derived derivative with respect to every simulated measurement.  Missing-value padding '
+              'and permutation invariance are corollaries of that weighted-sum form.  Time re-ordering (sort_times) and the composed filter '
+              'are verified for every permutation of up to 4 time points over up to 3 stub sub-filters (values symbolic).'),
+        design_ref='DESIGN.md section 4 (C12)',
+        note=('Floats as reals; numpy.ma modelled by 0/1 weights under the precondition of at least one value per cell; symbolic numpy model '
+              'conformance-checked with NaN patterns on every run; np.max inside logsumexp opaque (nothing assumed); sympy/z3.  Two genuine '
+              'defects found by this check were repaired (fix: commits b722981, 96e1645).'),
+        technique='contract-based deductive verification: symbolic execution of the real function bodies + Sigma-normal-form with hash-consed sum atoms + z3',
+    ),
 }
 NOT_APPLICABLE = {}
 
@@ -61,4 +77,5 @@ CHECK_MODULES = {
     'C04': 'contracts.c04',
     'C05': 'contracts.c05',
     'C06': 'contracts.c06',
+    'C12': 'contracts.c12',
 }
